@@ -59,6 +59,14 @@ CHECKS = {
              "pair constructions and the CIterator protocol are straight-line or single-match functions, so shape rules decide them for every input.",
         note="behaviour of the wrapped closure/iterator is outside the property; trusts Iterator::next / MaybeUninit semantics",
         ref="4 C15"),
+    "C20": dict(
+        cat="other",
+        technique="finite-domain evaluation of the verdict functions' MIR over their complete discriminant domains, call-argument order by origin tracing, StableAbi impl facts for every generated ADT in a layout_checks build",
+        text="four claimed clauses: verdict combination tables (3x3, exhaustive), compare_layouts over {None,Some}^2 x {Ok,Err} (exhaustive) with the "
+             "comparison's argument order, every generated/runtime ADT carries a layout description, nothing hides fields from it. NOT decided: whether "
+             "abi_stable's comparison itself distinguishes every single-edit interface change (third-party run-time comparison).",
+        note="abi_stable is trusted; the clause `never Valid when interfaces differ` is reduced to `every field of every generated struct participates in the description`",
+        ref="4 C20"),
 }
 
 NOT_APPLICABLE = {
